@@ -55,6 +55,7 @@ def check(repo, col, tier):
     col.rule("R-C11-inview", "what a view lists (channels, local edge numbers) is computed from the rows in view", 3)
     channels_in_view(repo, col, "R-C11-inview")
     synapse_view_local_index(repo, col, "R-C11-inview")
+    listed_in_view(repo, col, "R-C11-inview")
     col.rule("R-C11-groups", "groups hold sorted, unique row labels", 2)
     group_normal_form(repo, col)
     col.rule("R-C11-structure", "a view's structure attributes describe its own branches", 2)
@@ -810,20 +811,31 @@ def _filter(repo, col):
     col.check(ok, R, fi, "select(nodes, edges) builds View(self, nodes, edges)", "", f"View built as {t.short(140) if t else None}", node=call or fi.node)
 
 
-def _index(repo, col):
-    R = "R-C11-index"
+def _index(repo, col, R="R-C11-index"):
     fi = repo.method("Module", "_reformat_index")
     ex = idx.expander(repo, fi)
-    n = None
-    for x in ast.walk(fi.node):
-        if isinstance(x, ast.IfExp) and "isinstance(idx, slice)" in unparse(x.test):
-            n = x
-    if n is None:
-        col.unk(R, fi, "_reformat_index: slice expansion", "idiom `... if isinstance(idx, slice) else idx` not found", node=fi.node)
+
+    def is_slice_test(t):
+        return t.op == "call" and t.name == "isinstance" and len(t.args) == 2 and T.find(t.args[1], lambda y: y.op == "free" and y.name == "slice") is not None
+
+    q = None
+    for r in ex.returns:
+        q = T.find(r, lambda x: x.op == "ifexp" and is_slice_test(x.args[0]))
+        if q is not None:
+            break
+    if q is None:
+        col.unk(R, fi, "_reformat_index: slice expansion", "no value of the returned index is conditional on `isinstance(idx, slice)`", node=fi.node)
         return
-    t = ex.term(n.body)
-    rng = T.find(t, lambda x: x.op == "mcall" and x.name == "arange")
-    bound = rng.args[1] if rng is not None and len(rng.args) > 1 else None
+    X, t = q.args[0].args[0], q.args[1]
+    xk = X.key()
+    is_x = lambda y: y.key() == xk
+    node = next((n_ for n_ in ast.walk(fi.node) if isinstance(n_, ast.Call) and unparse(n_.func) == "isinstance" and len(n_.args) == 2
+                 and "slice" in unparse(n_.args[1])), fi.node)
+    rng = T.find(t, lambda x: x.op in ("mcall", "call") and x.name in ("arange", "range"))
+    # the row count the slice is resolved against: the argument of arange(N)[slice], or of slice.indices(N)
+    ind = T.find(t, lambda x: x.op == "mcall" and x.name == "indices" and is_x(x.args[0]))
+    rargs = [a for a in (rng.args if rng is not None else []) if a.op != "free"]
+    bound = ind.args[1] if ind is not None and len(ind.args) > 1 else (rargs[0] if len(rargs) == 1 else None)
     over_base = bound is not None and T.find(bound, lambda x: x.op == "attr" and x.name in ("nodes",) and x.args[0].op == "attr"
                                              and x.args[0].name == "base") is not None
     over_view = bound is not None and T.find(bound, lambda x: x.op == "attr" and x.name in ("nodes", "_nodes_in_view") and _is_self(x.args[0])) is not None
@@ -831,7 +843,22 @@ def _index(repo, col):
             "DISCHARGED" if over_base else ("VIOLATED" if over_view else "UNDECIDED"),
             "np.arange(len(self.base.nodes))[slice]: an upper bound of every local and global index" if over_base else
             f"a slice is expanded over {bound.short(60) if bound is not None else '?'}: the number of rows of a *view* is not an "
-            f"upper bound of global indices, so global slices on sub-views are truncated or empty", node=n)
+            f"upper bound of global indices, so global slices on sub-views are truncated or empty", node=node)
+    # the slice is applied whole: start, stop AND step
+    by_subscript = T.find(t, lambda x: x.op == "sub" and is_x(x.args[1]) and T.find(x.args[0], lambda y: y is rng) is not None) is not None if rng is not None else False
+    part = lambda a: ("start" if (a.op == "item" and a.name == 0) or (a.op == "attr" and a.name == "start") else
+                      "stop" if (a.op == "item" and a.name == 1) or (a.op == "attr" and a.name == "stop") else
+                      "step" if (a.op == "item" and a.name == 2) or (a.op == "attr" and a.name == "step") else None) \
+        if T.find(a, is_x) is not None else None
+    parts = [part(a) for a in rargs]
+    starred = len(rargs) == 1 and rargs[0].op == "star" and T.find(rargs[0], lambda x: x.op == "mcall" and x.name == "indices" and is_x(x.args[0])) is not None
+    if by_subscript or starred or parts[:3] == ["start", "stop", "step"]:
+        col.ok(R, fi, "a slice index keeps its start, stop and step", "np.arange(n)[slice]" if by_subscript else "arange(start, stop, step) of the slice", node=node)
+    elif parts and parts[0] == "start" and "step" not in parts:
+        col.add(R, fi, "a slice index keeps its start, stop and step", "VIOLATED",
+                f"the slice is expanded as {rng.short(90)}: its step is dropped, `net.cell(slice(0, 7, 2))` selects every cell of the range", node=node)
+    else:
+        col.unk(R, fi, "a slice index keeps its start, stop and step", f"slice expansion {t.short(120)} not recognised", node=node)
 
 
 def _rerank(repo, col):
@@ -1025,6 +1052,47 @@ def channels_in_view(repo, col, R):
     flt = T.find(r, lambda x: x.op == "comp" and T.find(x, lambda y: y.op == "attr" and y.name == "channels" and y.args[0].op == "param" and y.args[0].name == "pointer") is not None)
     col.check(flt is not None, R, fi, "the view's channels are the pointer's channels that are in view", "[c for c in pointer.channels if ...]",
               f"returns {r.short(100)}", node=fi.node)
+
+
+def listed_in_view(repo, col, R):
+    """View._cells_in_view / _branches_in_view / _comps_in_view list the GLOBAL indices of the rows in view: the distinct values of the
+    corresponding global_*_index column of the view's own node table, and nothing derived from the local numbering (a view may hold any
+    subset, e.g. cells [0, 2, 5]: `first + local` lists [0, 1, 2]).  The connectivity builders take their populations from these lists."""
+    WRAP = {"asarray", "array", "to_numpy", "tolist", "to_list", "astype", "sort", "sorted", "list", "copy"}
+    for nm, colname in (("_cells_in_view", "global_cell_index"), ("_branches_in_view", "global_branch_index"), ("_comps_in_view", "global_comp_index")):
+        fi = repo.method("View", nm)
+        ex = idx.expander(repo, fi)
+        r = ex.merged_return() if len(ex.returns) != 1 else ex.returns[0]
+        if r is None:
+            raise AnalysisError(f"View.{nm} has no return value")
+        r = idx.inline(repo, fi, r, value_only=True)
+        t = r
+        uniq = False
+        while True:
+            if t.op in ("mcall", "call") and t.name in WRAP and t.args:
+                t = t.args[0] if not (t.op == "call" and t.args[0].op == "free") else (t.args[1] if len(t.args) > 1 else t.args[0])
+                continue
+            if t.op in ("mcall", "call") and t.name in ("unique", "drop_duplicates") and t.args:
+                uniq = True
+                t = t.args[0] if not (t.args[0].op == "free") else t.args[1]
+                continue
+            if t.op == "attr" and t.name == "values":
+                t = t.args[0]
+                continue
+            break
+        column = t.op == "sub" and t.args[0].op == "attr" and t.args[0].name == "nodes" and t.args[0].args[0].op == "param" \
+            and t.args[0].args[0].name == "self" and t.args[1].op == "const"
+        if column and uniq:
+            ok = t.args[1].name == colname
+            col.check(ok, R, fi, f"View.{nm} lists the distinct values of the view's {colname} column", f"self.nodes['{colname}'].unique()",
+                      f"lists the column {t.args[1].name!r}", node=fi.node)
+        else:
+            cols = sorted({str(x.args[1].name) for x in T.find_all(r, lambda x: x.op == "sub" and x.args[0].op == "attr" and x.args[0].name == "nodes" and x.args[1].op == "const")})
+            derived = any(c.startswith("local_") for c in cols) or T.find(r, lambda x: x.op in ("bin", "binop", "arith") or (x.op == "call" and x.name in ("arange", "range"))) is not None
+            col.add(R, fi, f"View.{nm} lists the distinct values of the view's {colname} column", "VIOLATED" if derived else "UNDECIDED",
+                    f"returns {r.short(110)} (columns {cols}): " + ("the global indices are reconstructed from other numbering, which is right only "
+                    "for a contiguous range of cells / branches / compartments; a view may hold any subset (cells [0, 2, 5])" if derived else "form not recognised"),
+                    node=fi.node)
 
 
 def synapse_view_local_index(repo, col, R):
